@@ -67,7 +67,7 @@ PROPS["C03"] = {
     "title": "no entry served after its deadline",
     "technique": "SSA symbolic execution of Store.Set/Get/Range/LoadingStore.Get + SMT (z3): set time, TTL, read time and the cached-clock reading are 64-bit symbolic values",
     "level_text": "Bounded symbolic model checking of the real read paths: for every set time, TTL >= 1 (including overflowing ones), read time and every possible staleness of the cached clock, z3 decides that a hit implies read-time < deadline, that the deadline is exactly set-time+TTL (saturating), and that a later SetWithTTL replaces it. The claim is per call and covers all 64-bit values below 2^62 ns of uptime.",
-    "level_note": "Trusted: go/ssa, the executor's encoding, z3; the clock stub (time moves only where the harness moves it). One key, capacity 10, no concurrent writers (interleavings with maintenance are explored only at the blocking points of the calls). Known finding: stale cached clock > 30 s (known_findings.json).",
+    "level_note": "Trusted: go/ssa, the executor's encoding, z3; the clock stub (time moves only where the harness moves it). One key, capacity 10, no concurrent writers (interleavings with maintenance are explored only at the blocking points of the calls). Known finding: stale cached clock > 30 s (known_findings.json). Round 4 addition: a read right after LoadCache, before the first tick of the new cache, with saved uptime, TTL, downtime and read delay symbolic (found the defect repaired in dc1f929).",
     "assumptions": ["TTL >= 1 ns (negative TTLs are documented as the caller's problem)", "monotonic clock, uptime < 2^62 ns", "cached clock = some earlier reading C <= W of the true clock (arbitrary staleness)"],
     "outside_bound": ["uptime >= 2^62 ns", "more than one TTL update per key"],
     "quick": [H("ZZ_C03_AfterLoad", params={"BITS": 33, "UFIX": 1}, reach=["read-after-load"], bounds="read right after LoadCache, before the first tick: saved uptime 2^36 ns, TTL / downtime <= 2^33 ns and read delay < 2^29 ns symbolic"),
@@ -149,7 +149,7 @@ PROPS["C06"] = {
     "title": "successful Set visible, never lost without a reason",
     "technique": "SSA symbolic execution of bounded sequential histories of the real Store API (Set/Get/Delete/Wait/tick, loader) against a reference model + SMT (z3): costs, TTLs and clock advances symbolic",
     "level_text": "Bounded symbolic model checking: every history of N real API calls (Set on two keys, Get, Delete, clock advance, drain, tick) is executed on the real Store with its real maintenance goroutines; costs (including 0 = cost function and values above MaxSize), TTLs and clock advances are symbolic and z3 decides the reference model's predictions (Set result, immediate visibility, no loss and no eviction without capacity pressure, fresh entry after expiry, oversize never admitted) for all their values.",
-    "level_note": "Trusted: go/ssa, executor encoding, z3, the clock/ticker stubs, concrete hash (one fixed mixing function; two keys), one read stripe. MaxSize 3, histories of N=3 calls; TTL <= 2^29 ns and advances <= 2^30 ns so that entries stay on the finest wheel (C04 covers placement). (The former known finding, a plain Set on an expired, unreclaimed key keeping the passed deadline, has been repaired in the repository.)",
+    "level_note": "Trusted: go/ssa, executor encoding, z3, the clock/ticker stubs, concrete hash (one fixed mixing function; two keys), one read stripe. MaxSize 3, histories of N=3 calls; TTL <= 2^29 ns and advances <= 2^30 ns so that entries stay on the finest wheel (C04 covers placement). (The former known finding, a plain Set on an expired, unreclaimed key keeping the passed deadline, has been repaired in the repository.) Round 4 additions: the histories carry the notification/accounting/counter ledger; delayed update event of an expired and re-inserted key with the entry pool on; deadline extension racing the expiry-on-arrival of the insert event.",
     "assumptions": ["fresh cached clock before every read (staleness is C03)", "single client thread; maintenance runs at the client's blocking points"],
     "outside_bound": ["histories longer than N", "more than two keys", "MaxSize other than 3", "TTL > 2^29 ns"],
     "quick": [H("ZZ_C02_ArrivalWindow", params={"PRE": 1}, reach=["settled"], bounds="an accepted Set that extends the deadline while the insert event of the key is being expired on arrival is not lost"),
@@ -178,7 +178,7 @@ PROPS["C20"] = {
     "title": "Wait is a write barrier and always returns",
     "technique": "SSA symbolic execution with controlled threads (schedule choices explored exhaustively within a preemption bound) of the real Store.Set/Delete/Wait and maintenance loop; deadlock detection; barrier oracle",
     "level_text": "Bounded model checking over schedules: W goroutines call the real Wait() concurrently after (or while) writes on a capacity-2 cache; every interleaving at synchronisation granularity within the preemption bound is executed on the real code; a state in which a Wait caller can never run again is a deadlock counterexample; at each return of Wait the accounting equalities and stored = resident + notified are asserted.",
-    "level_note": _thr_note + "Bounds: <=3 waiters, <=3 writes, preemption bound 1 (thorough 2), write-batch size 128 and 2.",
+    "level_note": _thr_note + "Bounds: <=3 waiters, <=3 writes, preemption bound 1 (thorough 2), write-batch size 128 and 2. Round 4 addition: SaveCache running concurrently with a writer that stores two keys and waits.",
     "assumptions": ["writes issued before the waiters start (ZZ_C20_Waiters) or by one concurrent writer (ZZ_C20_WaitWithWriter)"],
     "outside_bound": ["more than 3 concurrent waiters", "preemption bound above 1", "timer ticks during Wait"],
     "quick": [H("ZZ_C20_BarrierWithSave", params={"PRE": 1}, reach=["all-returned"], bounds="SaveCache concurrent with a writer that stores two keys and waits; preemptions 1"),
@@ -213,7 +213,7 @@ PROPS["C10"] = {
     "title": "every call terminates around Close; Close is final and leak-free",
     "technique": "SSA symbolic execution with controlled threads of the real Store.Close racing Set/Wait, and of the calls after Close; deadlock (non-termination) detection and goroutine-exit check over all schedules within the bound",
     "level_text": "Bounded model checking over schedules of the plain and loading Store: Close racing a writer with more writes than the queue holds (queue size 1 and 64), Close racing Wait, and the sequence of calls after Close; every schedule at synchronisation granularity within the preemption bound is executed; a blocked-forever caller is a deadlock counterexample; after Close the harness asserts misses, no effect, ErrCacheClosed and that every goroutine the constructor started has terminated.",
-    "level_note": _thr_note + "All four cache flavours are also driven through the public theine package API (Close wrappers differ per flavour). The deadlocks and leaks this check found on the pinned tree are repaired (known_findings.json, fixed entries).",
+    "level_note": _thr_note + "All four cache flavours are also driven through the public theine package API (Close wrappers differ per flavour). The deadlocks and leaks this check found on the pinned tree are repaired (known_findings.json, fixed entries). Round 5 addition: hybrid Get / loading Get after Close of a key whose copy lives in the secondary tier.",
     "assumptions": ["one writer goroutine, one closer; entry pool off"],
     "outside_bound": ["more than one writer", "preemption bound above 1 (RaceClose: 2 in thorough)"],
     "quick": _c10(0) + [H("ZZ_C10_HybridGetAfterClose", reach=["closed"], bounds="hybrid cache: Get / loading Get after Close of a key whose copy lives in the secondary tier"),
@@ -234,7 +234,7 @@ PROPS["C01"] = {
     "title": "linearizable map",
     "technique": "SSA symbolic execution with controlled threads of the real Store API (Set/Get/Delete/Range, loading Get); exhaustive schedule exploration within a preemption bound; linearizability oracle (search over linearizations) in the harness; RBMutex protocol at atomic granularity",
     "level_text": "Bounded model checking over schedules and operation choices: two clients each issue OPS real calls chosen from Set k1 / Set k2 / Get k1 / Delete k1 / Range (/ loading Get) on a capacity-1 cache, every write with a distinct value tag; every interleaving at synchronisation granularity within the preemption bound runs on the real code with the real maintenance goroutine; the harness then searches for a linearization (map that may drop keys) explaining every hit. The reader-biased lock itself is checked separately at the granularity of its atomic operations (1 writer, 2 readers, mutual exclusion).",
-    "level_note": _thr_note + "Store-level runs use the ideal reader/writer lock in place of RBMutex (whose own protocol is the second harness). Bounds: 2 clients x 2 ops, preemption bound 0 (quick) / 1 (thorough); plain, loading, entry-pool and doorkeeper configurations.",
+    "level_note": _thr_note + "Store-level runs use the ideal reader/writer lock in place of RBMutex (whose own protocol is the second harness). Bounds: 2 clients x 2 ops, preemption bound 0 (quick) / 1 (thorough); plain, loading, entry-pool and doorkeeper configurations. Round 4/5 additions: a three-client program on the loading cache (load, read-then-delete, load again after the Delete returned; preemption bound 1, thorough 2), which found and now guards the stale-join repair ba0f424.",
     "assumptions": ["switching only at synchronisation operations is sound for data-race-free code (race freedom under the same bounds is C19's subject)"],
     "outside_bound": ["more than 2 clients or 2 operations each", "preemption bound above 1 (RBMutex harness: 2)", "timer ticks during the history"],
     "quick": [H("ZZ_C01_LoadDeleteLoad", params={"PRE": 1}, reach=["history-complete", "deleted-after-seeing-the-loaded-value"], bounds="three clients on a loading cache: load, read-then-delete, load again after the Delete returned; preemptions 1"),
@@ -261,7 +261,7 @@ PROPS["C02"] = {
     "title": "resident cost within MaxSize after drain; nothing untracked",
     "technique": "SSA symbolic execution with controlled threads of two-client programs on the real Store (symbolic costs), then Wait and accounting invariants decided by z3; sync/atomic operations as scheduling points for the expiry window",
     "level_text": "Bounded model checking: two clients x OPS operations (Set k1 / Set k2 with symbolic costs 1..MaxSize, Delete, Get) in every interleaving within the preemption bound; after Wait the harness asserts, for all cost values, resident cost = policy total = sum of region sizes <= MaxSize, every resident entry on exactly one region list with policy weight = weight and not flagged removed, and Len/EstimatedSize views. A second program places a TTL extension at every atomic step of the expiry path (no source hook needed: the executor schedules at sync/atomic operations).",
-    "level_note": _thr_note + "Entry pool off (as the property states) except in ZZ_C02_PoolStaleUpdate. The in-flight bound on unaccounted entries is not asserted as a running monitor; the mechanism behind it (a writer waits on the full queue rather than skipping the accounting) is exercised with a one-slot queue, where a skipped event shows up as an untracked resident entry after the drain.",
+    "level_note": _thr_note + "Entry pool off (as the property states) except in ZZ_C02_PoolStaleUpdate. The in-flight bound on unaccounted entries is not asserted as a running monitor; the mechanism behind it (a writer waits on the full queue rather than skipping the accounting) is exercised with a one-slot queue, where a skipped event shows up as an untracked resident entry after the drain. Round 4/5 additions: insert event expired on arrival while a second writer extends the deadline (found the untracked-entry defect repaired in f3993d6), delayed update event vs expiry and re-insertion with the entry pool on, and the ledger of the symbolic sequential histories (ZZ_C06_History, N=2 quick / 3 thorough).",
     "assumptions": ["MaxSize 2, two keys"],
     "outside_bound": ["bound on unaccounted entries while writes are in flight", "more than 2 clients / 2 ops", "preemption bound above 1"],
     "quick": [H("ZZ_C06_History", params={"N": 2}, reach=["history-done"], bounds="N=2 calls: symbolic sequential histories (Set k1/k2 with symbolic cost and TTL, Get, Delete, clock advance, drain, tick) with the ledger: resident xor notified exactly once, REMOVED iff deleted, overwritten values never notified, accounting and wheel membership after drain, hits+misses = number of Gets"),
@@ -289,7 +289,7 @@ PROPS["C05"] = {
     "title": "exactly one removal notification, true reason",
     "technique": "SSA symbolic execution with controlled threads: Delete, capacity eviction and expiry of the same entry overlapped in every schedule within the preemption bound; notification ledger oracle",
     "level_text": "Bounded model checking over schedules of the real Store with a removal listener: Delete vs eviction, Delete vs expiry, eviction vs expiry (with a value update before departure), rejected Sets; after drain each departed entry must have exactly one notification with its key, the value held at departure and a reason consistent with how it left, and stored = resident + notified.",
-    "level_note": _thr_note + "Scenario programs (not arbitrary histories); entry pool off and on.",
+    "level_note": _thr_note + "Scenario programs (not arbitrary histories); entry pool off and on. Round 4 addition: the ledger of the symbolic sequential histories (ZZ_C06_History N=3: Set with symbolic cost/TTL, Get, Delete, clock advance, drain, tick): every accepted value resident xor notified exactly once, REMOVED iff deleted, overwritten values never notified.",
     "assumptions": ["scripted overlap scenarios on capacity 1 and 10"],
     "outside_bound": ["arbitrary operation histories", "preemption bound above 1 (thorough 2)"],
     "quick": [H("ZZ_C06_History", params={"N": 3}, reach=["history-done"], bounds="N=3 calls: symbolic sequential histories (Set k1/k2 with symbolic cost and TTL, Get, Delete, clock advance, drain, tick) with the ledger: resident xor notified exactly once, REMOVED iff deleted, overwritten values never notified, accounting and wheel membership after drain, hits+misses = number of Gets"),
@@ -311,7 +311,7 @@ PROPS["C08"] = {
     "title": "lossy read buffer neither invents nor wedges",
     "technique": "SSA symbolic execution of Buffer.Add/Free: call-granularity late hand-back sequences and two readers interleaved at the granularity of individual sync/atomic operations (all schedules within the preemption bound); Store-level stall behind the policy lock",
     "level_text": "Bounded model checking of the real ring buffer: (a) every number 0..17 of Adds while the batch token is out, then a late Free, then 33 further Adds must deliver a batch; (b) two readers racing on a stripe holding 14 or 15 items, and a late Free racing a reader, with a scheduling point before every atomic operation; every delivered item was added and is delivered once; afterwards the stripe still delivers; (c) at Store level a drain stalled behind the policy lock, then hits must reach the policy again.",
-    "level_note": _thr_note + "One stripe; 2 threads at atomic granularity, <=3 Adds each, preemption bound 2 (thorough 3).",
+    "level_note": _thr_note + "One stripe; 2 threads at atomic granularity, <=3 Adds each, preemption bound 2 (thorough 3). Round 4 addition: Store-level delivered-once (per-key read credit in the sketch never exceeds the reads issued) with a batch held behind the policy lock.",
     "assumptions": ["Clear() (test-only) not exercised"],
     "outside_bound": ["more than 2 concurrent readers at atomic granularity", "preemption bound above 3"],
     "quick": [H("ZZ_C08_StoreOnce", reach=["both-readers-done"], bounds="Store level, four keys: a batch held behind the policy lock while a second reader fills the same stripe; per-key read credit never exceeds the reads"),
@@ -353,7 +353,7 @@ PROPS["C16"] = {
     "title": "counters and size views",
     "technique": "SSA symbolic execution: path-wise counting on the real Get / loading Get with symbolic clocks (z3), striped counter at atomic granularity, post-drain views",
     "level_text": "Bounded model checking: (a) for every set time, TTL, read time and cached-clock reading, one real Get or loading Get moves exactly one of hits/misses and hits exactly when a cached value was returned (so the totals over any finished history follow by induction over calls); (b) two concurrent UnsignedCounter.Add calls at atomic granularity never lose an increment; (c) after drain Len, EstimatedSize and Range agree with the resident set, Range visits every live key once with its current value, skips expired ones and stops when told.",
-    "level_note": _thr_note + "Counts are asserted per call (single client) plus the counter's atomicity; concurrent whole-history counting follows from those two, it is not explored as one program.",
+    "level_note": _thr_note + "Counts are asserted per call (single client) plus the counter's atomicity; concurrent whole-history counting follows from those two, it is not explored as one program. Round 4/5 additions: Range at an arbitrary instant without a refresh of the cached clock, counting on two concurrent loading Gets that share a load (value, error, panic, Goexit), the counter clauses of the symbolic sequential histories.",
     "assumptions": ["hybrid Get is outside the property (stats are in-memory only)"],
     "outside_bound": ["more than 2 concurrent counter updates"],
     "quick": [H("ZZ_C13_Loading", params={"CALLERS": 2, "PRE": 1}, reach=["all-callers-finished"], bounds="two concurrent loading Gets of one absent key (shared load; value, error, panic or Goexit): every call counted exactly once"),
@@ -375,7 +375,7 @@ PROPS["C11"] = {
     "title": "SaveCache/LoadCache round trip (logic, not gob bytes)",
     "technique": "SSA symbolic execution of the real Store.Persist / Store.Recover / List.Persist / DataBlock with encoding/gob stubbed as a value channel; source cache built through the real API; elapsed time and costs symbolic (z3)",
     "level_text": "Bounded symbolic model checking of the repository's own save/restore logic: a cache filled through the real API (entries with and without TTL, hits that move entries between regions) is saved to a ghost stream and loaded into a fresh cache after a symbolic clock advance; for all advances (and symbolic costs in the COSTS runs) z3 decides that every unexpired entry is restored with the same key, value, cost and deadline, region, relative order and at least the saved frequency, that expired ones are dropped, that the new cache satisfies the accounting and wheel-membership invariants and adopts the saved clock origin; block splitting at arbitrary points is explored. Claimed in part: the gob byte stream is not modelled.",
-    "level_note": "Trusted: go/ssa, executor encoding, z3. " + _gob_note + "Source caches: 4-16 entries, unit or symbolic costs 1..3, optionally after two sample periods of the real hill climber or with the protected region above its size.",
+    "level_note": "Trusted: go/ssa, executor encoding, z3. " + _gob_note + "Source caches: 4-16 entries, unit or symbolic costs 1..3, optionally after two sample periods of the real hill climber or with the protected region above its size. Round 4/5 additions: regions split over blocks at arbitrary points combined with symbolic costs and a smaller target; MaxSize 1000 with the window shrunk by the climber's first move (capacities set by hand to that reachable split) and four cost-weighted entries filling the enlarged protected region.",
     "assumptions": ["gob round-trips the values it is given (its contract, and the README's precondition on key/value types)", "N=4 entries, capacity 10"],
     "outside_bound": ["gob byte layout and 4 MiB thresholds as byte counts", "more than 4 entries", "arbitrary adaptive-split states (only those reached by the fill script)"],
     "quick": [H("ZZ_C11_RoundTrip", params={"CAP": 1000, "N": 4, "COSTS": 1, "MAXCOST": 300, "SHRUNK": 9, "HITALL": 1}, reach=["loaded", "window-shrunk"], bounds="MaxSize 1000 after the climber shrank the window from 10 to 1: four entries with symbolic costs 1..300 that fill the enlarged protected region"),
@@ -405,7 +405,7 @@ PROPS["C12"] = {
     "title": "damaged or truncated stream (block-level faults)",
     "technique": "SSA symbolic execution of the real Store.Recover on a ghost stream passed through an enumerated block-level fault schedule (truncate, drop, duplicate, swap, retag, checksum damage, payload swap, payload damage), version mismatch",
     "level_text": "Bounded model checking over fault schedules at block granularity: the stream produced by the real Persist is damaged by every single fault (thorough: every pair) of the listed kinds at every block position and loaded by the real Recover; asserted: a truncated stream is an error, every loaded entry equals a saved entry (key, value, deadline not later), no Go panic, and a stream saved under another version yields VersionMismatch with nothing loaded. Claimed in part: bit/byte-level damage inside gob framing is outside the model.",
-    "level_note": "Trusted: go/ssa, executor encoding, z3. " + _gob_note + "A damaged payload is modelled as 'decoder fails at the damaged item and the payload's checksum changes'; checksum collisions are excluded by construction.",
+    "level_note": "Trusted: go/ssa, executor encoding, z3. " + _gob_note + "A damaged payload is modelled as 'decoder fails at the damaged item and the payload's checksum changes'; checksum collisions are excluded by construction. Round 5 addition: faults on streams loaded into a cache smaller than the saved one.",
     "assumptions": ["no xxh3 collision between a payload and its damaged version"],
     "outside_bound": ["bit/byte-level corruption inside gob messages and type descriptors", "more than 2 simultaneous faults"],
     "quick": [H("ZZ_C12_Faults", params={"FAULTS": 1, "CAP2": 2, "N": 6}, reach=["recover-returned"], bounds="one block-level fault, loading cache smaller than the saved one (regions fill up before the stream ends)"),
@@ -421,7 +421,7 @@ PROPS["C14"] = {
     "title": "hybrid cache never serves stale, deleted or expired values",
     "technique": "SSA symbolic execution with controlled threads of the real hybrid entry points (GetWithSecodary, Set, DeleteWithSecondary) with the real processSecondary worker and a nondeterministic secondary store; sequential histories against a model, Delete-vs-demotion race, symbolic read time",
     "level_text": "Bounded model checking: (a) every history of N calls (Set k1 with/without TTL, Set k2 on a one-slot memory tier so that demotion and promotion happen, hybrid Get, hybrid Delete, clock advance) with workers keeping up, checked against a model: a hit from either tier carries the last completed Set's value, never after a completed Delete or past the deadline; (b) Delete racing the demotion of the same entry in all schedules within the preemption bound; (c) promote-update-evict-read; (d) expired entry in the secondary tier with symbolic read time.",
-    "level_note": _thr_note + "Secondary store = harness map with a yield in every method (slow store); admission probability 1, 0 and symbolic; one worker (thorough: two); a full hand-off queue is modelled by letting the select in removeEntry take its default branch nondeterministically.",
+    "level_note": _thr_note + "Secondary store = harness map with a yield in every method (slow store); admission probability 1, 0 and symbolic; one worker (thorough: two); a full hand-off queue is modelled by letting the select in removeEntry take its default branch nondeterministically. Round 4/5 additions: concurrent hybrid histories under C01's linearizability oracle from four start states (quick: the operation pair that exposed the worker-gap defect; thorough: the full menu and failing writes), failed demotion writes, save/load of a hybrid cache over a surviving secondary tier.",
     "assumptions": ["workers keep up between the calls of the sequential histories (the race program does not assume it)"],
     "outside_bound": ["more than two workers", "histories longer than N (quick 4, thorough 5)"],
     "quick": [H("ZZ_C14_FailedDemotion", params={"PROMOTE": 0}, reach=["evicted"], bounds="newer value evicted, its secondary write fails or succeeds (every call, by choice)"),
@@ -463,7 +463,7 @@ PROPS["C15"] = {
     "title": "evicted entries reach the secondary tier; memory stays bounded",
     "technique": "SSA symbolic execution with controlled threads of Set / loading Get overflowing a one-slot memory tier with the real worker; every secondary Set may fail (nondeterministic choice per call)",
     "level_text": "Bounded model checking: n writes (with or without TTL) or loads overflow a capacity-1 memory tier with admission probability 1; after the workers settle every capacity-evicted entry is in the secondary tier with the same value, cost and deadline and a hybrid Get returns it without reloading; with a failing secondary (every failure pattern) the error handler runs once per failure and the memory tier stays within MaxSize.",
-    "level_note": _thr_note + "Secondary store = harness map; one worker; queue never full (the property conditions on it).",
+    "level_note": _thr_note + "Secondary store = harness map; one worker; queue never full (the property conditions on it). Round 4/5 additions: a hybrid Get (plain and loading) racing the slow secondary write of the evicted entry (the entry is in one of the tiers at any time), failing demotion writes, demotion of entries restored by LoadCache.",
     "assumptions": ["workers given time to keep up (settle after each call)"],
     "outside_bound": ["more than 3 writes", "more than one worker"],
     "quick": [H("ZZ_C14_SaveLoadHybrid", params={"PROMOTE": 0}, reach=["loaded"], bounds="entries restored by LoadCache into a hybrid cache are demoted on eviction like any other (still retrievable afterwards)"),
@@ -489,7 +489,7 @@ PROPS["C18"] = {
     "title": "equal keys address the same entry; different keys never alias (pre-1.24 hasher)",
     "technique": "SSA symbolic execution of hasher.NewHasher/Hash through their unsafe casts with xxh3 uninterpreted (cvc5, congruence), and of Store.Set/Get/Delete under a full 64-bit hash collision",
     "level_text": "Bounded symbolic model checking: for key types uint64, int32, bool, struct{uint32,uint32}, [2]uint32, *int and string the real Hash reads exactly the key's memory image (the executor models the fabricated string header and rejects padding or out-of-object reads), so equal keys hash equally and the hash is stable - decided by congruence of the uninterpreted xxh3; with a StringKeyFunc the hash depends on the derived string only; two different keys whose 64-bit hashes are assumed equal keep their own values through Set/Get/Delete and the accounting stays consistent.",
-    "level_note": "Trusted: go/ssa, executor encoding of the unsafe string-header cast, cvc5/z3. Claimed in part: key types up to 8 bytes of scalars; the go1.24 maphash variant is not in this image's default toolchain; hash quality is out of scope.",
+    "level_note": "Trusted: go/ssa, executor encoding of the unsafe string-header cast, cvc5/z3. Claimed in part: key types up to 8 bytes of scalars; the go1.24 maphash variant is not in this image's default toolchain; hash quality is out of scope. Round 4 addition: failed (panicking or erroring) load of one key, load of another key of the same duplicate-suppression group with an adversarial call-record pool, first key again.",
     "assumptions": ["xxh3 is a function (uninterpreted)"],
     "outside_bound": ["key types wider than 8 bytes", "struct keys with padding, string/float/interface fields (excluded by the property for pre-1.24)", "go1.24+ hasher"],
     "quick": [H("ZZ_C18_PanicThenOtherKey", reach=["third-get"], bounds="failed (panicking or erroring) load of k1, load of another key of the same shard with an adversarial call-record pool, k1 again"),
@@ -512,7 +512,7 @@ PROPS["C19"] = {
     "title": "no data races in the default configuration (bounded)",
     "technique": "vector-clock (happens-before) race monitor inside the SSA executor over every heap cell loaded or stored, on two-thread programs of the real Store explored over all schedules within the preemption bound",
     "level_text": "Bounded model checking with a happens-before monitor: for pairs of API calls the suite never overlaps, every schedule at synchronisation granularity within the preemption bound is executed and every load/store of a heap cell (struct fields, slice elements, maps) is checked against the last conflicting access using vector clocks (edges: mutex release->acquire, channel send->receive and close->receive, go, WaitGroup, sync/atomic accesses). Because exploration is exhaustive inside the bound, a race in the bounded program is reported whichever schedule hides it from the Go race detector. The self-test plants a race and checks that it is reported.",
-    "level_note": _thr_note + "Entry pool off, listener installed. Cells inside stubbed library objects and RBMutex internals (own harness under C01) are not monitored. Hybrid pairs are not among the programs; SaveCache runs with the gob stub.",
+    "level_note": _thr_note + "Entry pool off, listener installed. Cells inside stubbed library objects and RBMutex internals (own harness under C01) are not monitored. Hybrid pairs are not among the programs; SaveCache runs with the gob stub. Round 4/5 additions: Close paired with Len/Range and with EstimatedSize/Stats/Delete; the duplicate-suppression call records (joined caller vs a caller of another key sharing the pool).",
     "assumptions": ["ideal reader/writer lock for RBMutex"],
     "outside_bound": ["more than 2 client threads", "hybrid-cache pairs", "preemption bound above 1 (thorough 2)"],
     "quick": _c19x(1),
